@@ -46,6 +46,9 @@ def _variants(rng, case):
         cs.update(W.gen_test(rng, W.POLLING))
         cs["cards"] = None
         case["mixed"] = True
+    if not case.get("margins_via_tally"):
+        for r, rnd in enumerate(case["rounds"]):
+            rnd["margin_nudge"] = bool(r > 0 and rng.chance(0.15))
     return case
 
 
@@ -153,7 +156,9 @@ class Monitor:
                             f"{cid}/{key}: returned bound {u}, expected {exp_u} (margin {asn.margin}, assorter bound "
                             f"{asn.assorter.upper_bound})")
             # no slack below 0: a datum of -1e-15 flips the sign of a martingale whose alternative sits at u (F-C06-1)
-            bad = [x for x in d if not (0 <= x <= u * (1 + 1e-12) + 1e-15)]
+            # ... and none above u either: the largest possible datum and u are the same expression, and a test may
+            # refuse data above its bound (the SPRT raises)
+            bad = [x for x in d if not (0 <= x <= u)]
             if bad:
                 out.violate("C06.a", f"{run.world['contests'][cid]['audit_type']}/{run.world['contests'][cid]['choice_function']}",
                             f"{cid}/{key}: datum {bad[0]!r} outside [0, {u}] (round {r})")
@@ -196,7 +201,16 @@ class Monitor:
                         out.probe("MVR lacks contest under style")
                     try:
                         with W.quiet():
-                            exp.append(asn.overstatement_assorter(m, c, use_style=run.use_style))
+                            b_ = asn.overstatement_assorter(m, c, use_style=run.use_style)
+                            exp.append(b_)
+                            # the value is (1 - overstatement/bound) / (2 - margin/bound) with the margin in force now
+                            om = asn.assorter.overstatement(m, c, use_style=run.use_style)
+                        ub_ = asn.assorter.upper_bound
+                        want = (1 - om / ub_) / (2 - asn.margin / ub_)
+                        if not tight(b_, want):
+                            out.violate("C06.d", f"value-formula/{run.world['audit_type']}",
+                                        f"{cid}/{key}: card {c.id} is handed over as {float(b_)!r}; its overstatement {float(om)!r}, "
+                                        f"bound {ub_} and the margin in force {asn.margin!r} give {float(want)!r} (round {r})")
                     except Exception:
                         exp = None
                         break
@@ -211,6 +225,19 @@ class Monitor:
         # observe the bound in force *while* each test runs (set_p_values comes next)
         self.seen = {}
         self.install_spies(run)
+
+    def after_reestimate(self, run, r, again):
+        """the same sample converted once more after the estimate was looked up: the same data"""
+        first = run.data_hist[-1]
+        for k, (d2, u2) in sorted(again.items()):
+            if k not in first:
+                continue
+            d1, u1 = first[k]
+            if len(d1) != len(d2) or any(not tight(a, b) for a, b in zip(d1, d2)) or not tight(u1, u2):
+                self.out.violate("C06.d", f"after-estimate/{run.world['audit_type']}",
+                                 f"{k[0]}/{k[1]}: the sample gave {len(d1)} values {d1[:5]} (u={u1}); converted again after the "
+                                 f"sample-size estimate was looked up it gives {len(d2)} values {d2[:5]} (u={u2}) (round {r})")
+                return
 
     def after_pvalues(self, run, r, p_max, done):
         for cid, con in run.contests.items():
